@@ -99,6 +99,9 @@ type SubT struct {
 	Gated   bool   `json:"gated,omitempty"`
 	CloseInFn bool `json:"closeinfn,omitempty"` // the worker function calls Close() on its own job (must be refused: ErrJobProcessing)
 	Pre     bool   `json:"pre,omitempty"`     // stored in the distributed backend by another producer before the consumer binds
+	Reenter int    `json:"reenter,omitempty"` // the worker function calls back into the library: 1 introspection, 2 submits job Child
+	Child   int    `json:"child,omitempty"`   // submission number of the follow-up job (Reenter 2)
+	IsChild bool   `json:"ischild,omitempty"` // submitted by another job's worker function, not by a client task
 }
 
 // Sub is one submission (an Add, or one item of an AddAll) with everything
@@ -334,6 +337,16 @@ func (wd *World) fnBody(j Job[int]) (int, error) {
 				s.CloseInFnErr = err.Error()
 			}
 			s.CloseInFnSeq = wd.root.rec.stamp()
+		}
+	}
+	switch s.Reenter {
+	case 1:
+		// a worker function may look at its worker and queue like anybody else
+		wd.runOp(Op{K: opIntro, Q: s.Q})
+	case 2:
+		// ... and submit follow-up work
+		if !wd.root.epilogue || true {
+			wd.runOp(Op{K: opAdd, Q: s.Q, Subs: []int{s.Child}})
 		}
 	}
 	if s.Delay > 0 {
